@@ -25,8 +25,8 @@ class World:
     run_timeout = 60.0
     required_probes = ["defective_generator", "shifted_start", "coarser_step",
                        "edit_between_make_and_use", "reassign_rate", "zero_rate",
-                       "refused_diagonal", "unaligned_shift", "complex_spectrum"]
-    required_faults = ["refused_diagonal_set"]
+                       "refused_diagonal", "unaligned_shift", "complex_spectrum", "main_axis_start_nonzero"]
+    required_faults = ["refused_diagonal_set", "refused_bad_assignment"]
     components = {
         "real": ["quantarhei RateMatrix.set_rate", "PopulationPropagator.propagate",
                  "PopulationPropagator.get_PropagationMatrix", "TimeAxis", "ValueAxis.is_subset_of"],
@@ -49,6 +49,7 @@ class World:
         shape = rng.choice(["generic", "generic", "chain_equal", "cyclic", "sparse", "from_data"])
         dt = rng.choice(DTS) if rng.random() < 0.85 else rng.choice(INEXACT_DTS)
         Nt = rng.choice([8, 16, 33, 64, 120])
+        t0 = rng.choice([0.0, 0.0, 0.0, 3.0, -3.0, 0.5, 12.0, -0.25]) if dt in DTS else 0.0
         # ||K|| dt between 1e-3 and ~0.6
         kscale = (10 ** rng.uniform(-3, -0.5)) / dt
         nops = rng.randint(3, 30 if tier == "quick" else 45)
@@ -64,7 +65,11 @@ class World:
                 ops.append({"op": "set_rate", "i": (i + 1) % N, "j": i, "v": k})
         while len(ops) < nops:
             r = rng.random()
-            if r < 0.45:
+            if r < 0.05:
+                ops.append({"op": "bad_set", "i": rng.randrange(N), "j": rng.randrange(N),
+                            "how": rng.choice(["target_out_of_range", "source_out_of_range", "complex_value", "string_value"]),
+                            "v": round(kscale * rng.uniform(0.1, 1.0) / N, 6)})
+            elif r < 0.45:
                 v = 0.0 if rng.random() < 0.12 else round(kscale * rng.uniform(0.0, 1.0) / N, 6)
                 i = rng.randrange(N)
                 j = rng.randrange(N) if rng.random() < 0.9 else i
@@ -82,7 +87,7 @@ class World:
                 s = rng.choice([0, 0, 1, 2, 3, 5, 7])
                 ln = rng.randint(2, 12)
                 ops.append({"op": "prop_matrix", "m": m, "s": s, "len": ln})
-        return {"N": N, "shape": shape, "dt": dt, "Nt": Nt, "ops": ops,
+        return {"N": N, "shape": shape, "dt": dt, "Nt": Nt, "t0": t0, "ops": ops,
                 "init": ([[round(rng.uniform(0, kscale / N), 6) for _ in range(N)] for _ in range(N)]
                          if shape == "from_data" else None)}
 
@@ -117,9 +122,13 @@ class World:
                 K[j, j] -= v
             return K
 
-        axis = TimeAxis(0.0, Nt, dt)
+        t0 = float(program.get("t0", 0.0))
+        if t0 != 0.0:
+            ctx.probe("main_axis_start_nonzero")
+        axis = TimeAxis(t0, Nt, dt)
         prop = None
         K_at_make = None
+        semantics = {"live": 0, "snapshot": 0}     # a propagator either follows later edits or keeps its rates: not both
         edits = 0
         used = 0
 
@@ -190,6 +199,7 @@ class World:
             elif kind == "make_prop":
                 prop = PopulationPropagator(axis, rate_matrix=rm)
                 K_at_make = Kmodel()
+                semantics = {"live": 0, "snapshot": 0}
                 ctx.ev(idx, kind)
                 ctx.cov(N, "make_prop", min(edits, 6))
             elif kind == "propagate":
@@ -222,6 +232,8 @@ class World:
                     err = numpy.max(numpy.abs(pops - ref), axis=1)
                     if numpy.all(err <= bound):
                         ok_any = True
+                        if len(cand) == 2:
+                            semantics["live" if K is Know else "snapshot"] += 1
                         # conservation and non-negativity within the same bound
                         check(numpy.all(numpy.abs(numpy.sum(pops, axis=1) - s0) <= 1e-12 * sc * (n + 1) * 4),
                               "population-sum-conserved",
@@ -249,7 +261,7 @@ class World:
                     s = 0
                     m = 1
                     ln = 2
-                sub = TimeAxis(s * dt, ln, m * dt)
+                sub = TimeAxis(t0 + s * dt, ln, m * dt)
                 exact = dt in DTS
                 Know = check_matrix("before prop_matrix %d" % idx)
                 if m > 1:
@@ -281,6 +293,8 @@ class World:
                     d = float(numpy.max(numpy.abs(U - ref))) if numpy.all(numpy.isfinite(U)) else numpy.inf
                     if d <= 1e-9:
                         ok_any = True
+                        if len(cand) == 2:
+                            semantics["live" if K is Know else "snapshot"] += 1
                         break
                     worst = d
                 cls = classify(Know)
@@ -289,8 +303,36 @@ class World:
                 used += 1
                 ctx.ev(idx, kind, m, s, ln, fingerprint(U))
                 ctx.cov(N, "prop_matrix", cls, m > 1, s > 0, s % m != 0, min(edits, 6))
+            elif kind == "bad_set":
+                i, j, v = op["i"] % N, op["j"] % N, float(op["v"])
+                if i == j:
+                    j = (i + 1) % N
+                how = op["how"]
+                pos, val = (i, j), v
+                if how == "target_out_of_range":
+                    pos = (N + 1, j)
+                elif how == "source_out_of_range":
+                    pos = (i, N + 2)
+                elif how == "complex_value":
+                    val = complex(v, v)
+                else:
+                    val = "fast"
+                before = numpy.array(rm.data, dtype=float).copy()
+                refused = False
+                try:
+                    rm.set_rate(pos, val)
+                except Exception:
+                    refused = True
+                ctx.fault("refused_bad_assignment")
+                check(refused, "bad-assignment-accepted", lambda: "op %d: set_rate(%r, %r) was accepted" % (idx, pos, val))
+                check(numpy.array_equal(before, numpy.array(rm.data, dtype=float)), "refusal-leaves-data",
+                      lambda: "op %d: refused set_rate(%r, %r) changed the matrix" % (idx, pos, val))
+                ctx.ev(idx, kind, how, "refused")
+                ctx.cov(N, "bad_set", how)
             else:
                 ctx.ev(idx, "noop", kind)
+            check(not (semantics["live"] and semantics["snapshot"]), "propagator-semantics-inconsistent",
+                  lambda: "op %d: the same propagator followed a later set_rate in one call and ignored it in another" % idx)
         check_matrix("end")
         ctx.nontrivial = edits >= 1 and used >= 1
 
